@@ -442,6 +442,22 @@ func readerStream(r *hx.Rand, n int, res *hx.Result) {
 	for _, c := range readerCorpus() {
 		runReaderCase(c, sa, res)
 	}
+	// corpus entries that need a marshalled session: a null step in a stored run's path
+	for _, sd := range seeds {
+		if sd.name != "session:manual:after-start" {
+			continue
+		}
+		var doc map[string]any
+		json.Unmarshal([]byte(sd.doc), &doc)
+		if runs, ok := doc["runs"].([]any); ok && len(runs) > 0 {
+			run := runs[0].(map[string]any)
+			if path, ok := run["path"].([]any); ok {
+				run["path"] = append(path, nil)
+				b, _ := json.Marshal(doc)
+				runReaderCase(&ReaderCase{Kind: "reader", Reader: "session", Seed: sd.name, Mutation: "null-element:.runs[].path", Document: b}, sa, res)
+			}
+		}
+	}
 	for i := 0; i < n && !hung; i++ {
 		runReaderCase(genReaderCase(r.Fork(fmt.Sprintf("reader%d", i)), seeds), sa, res)
 	}
